@@ -5,7 +5,11 @@
 
    Part A (RNum, structural parts for any T): what acceptance by
        [mat_allclose] / [equiv_up_to_phase] means, with explicit constants,
-       and completeness for exact global phases.
+       and completeness for exact global phases.  [equiv_up_to_phase] is the
+       function AS REPAIRED: the global phase is read off at the entry of largest
+       modulus ([argmax_entry], np.argmax), characterised by [argmax_entry_spec];
+       for a unitary matrix that entry has modulus >= 1/sqrt d
+       ([equiv_up_to_phase_well_conditioned]).
    Part B: [check_replacement] specification, error kinds, soundness.
    Part C: [bsr_eq] (BlochSphereRotation.__eq__ AS REPAIRED: zero rotations
        equal whatever their axes, half turns about opposite axes equal with
@@ -168,132 +172,141 @@ Section CheckT.
     rewrite Forall_forall in Hf. now apply Hf.
   Qed.
 
-  (* ---- first_nonzero ------------------------------------------------ *)
+  (* ---- argmax_entry, any T ------------------------------------------- *)
 
-  (* |x| > ATOL, as the model computes it *)
-  Definition bigb (x : C) : bool := nltb N (atol N) (cabs N x).
+  (* |x| < ATOL, as the model computes it *)
+  Definition smallb (x : C) : bool := nltb N (cabs N x) (atol N).
 
   Lemma mat_get_mget (A : mat) ij : mat_get N A ij = mget A (fst ij) (snd ij).
   Proof. reflexivity. Qed.
 
-  Lemma first_nonzero_row_Some (r : list C) : forall j0 j,
-    first_nonzero_row N r j0 = Some j ->
-    j0 <= j /\ j - j0 < length r /\ bigb (nth (j - j0) r (czero N)) = true /\
-    forall k, k < j - j0 -> bigb (nth k r (czero N)) = false.
+  (* the position carried by the scan is the one passed in, or one inside the row *)
+  Lemma argmax_row_pos (r : list C) i : forall j0 best,
+    fst (argmax_row N r i j0 best) = fst best \/
+    exists t, t < length r /\ fst (argmax_row N r i j0 best) = (i, j0 + t).
   Proof.
-    induction r as [|x r IH]; intros j0 j H; cbn [first_nonzero_row] in H; [discriminate|].
-    fold (bigb x) in H. destruct (bigb x) eqn:E.
-    - injection H as <-. rewrite Nat.sub_diag. cbn [length nth].
-      repeat split; [lia|lia|exact E|intros k Hk; lia].
-    - destruct (IH _ _ H) as [H1 [H2 [H3 H4]]].
-      replace (j - j0) with (S (j - S j0)) by lia. cbn [length nth].
-      repeat split; [lia|lia|exact H3|].
-      intros [|k] Hk; [exact E|apply H4; lia].
+    induction r as [|x r IH]; intros j0 best; cbn [argmax_row length]; [now left|].
+    cbv zeta.
+    destruct (IH (S j0) (if nltb N (snd best) (cabs N x) then ((i, j0), cabs N x) else best))
+      as [H|[t [Ht H]]].
+    - destruct (nltb N (snd best) (cabs N x)).
+      + right. exists 0. split; [lia|]. rewrite H. cbn [fst]. now rewrite Nat.add_0_r.
+      + now left.
+    - right. exists (S t). split; [lia|]. rewrite H. f_equal. lia.
   Qed.
 
-  Lemma first_nonzero_row_None (r : list C) : forall j0,
-    first_nonzero_row N r j0 = None <-> forall k, k < length r -> bigb (nth k r (czero N)) = false.
+  Lemma argmax_rows_pos (A : mat) : forall i0 best,
+    fst (argmax_rows N A i0 best) = fst best \/
+    exists r c, r < length A /\ c < length (nth r A []) /\
+                fst (argmax_rows N A i0 best) = (i0 + r, c).
   Proof.
-    induction r as [|x r IH]; intros j0; cbn [first_nonzero_row length].
-    - split; [intros _ k Hk; lia|reflexivity].
-    - fold (bigb x). destruct (bigb x) eqn:E.
-      + split; [discriminate|]. intros H. specialize (H 0 ltac:(lia)). cbn [nth] in H. congruence.
-      + rewrite IH. split.
-        * intros H [|k] Hk; cbn [nth]; [exact E|apply H; lia].
-        * intros H k Hk. apply (H (S k)). lia.
+    induction A as [|row A IH]; intros i0 best; cbn [argmax_rows length]; [now left|].
+    destruct (IH (S i0) (argmax_row N row i0 0 best)) as [H|[r [c [Hr [Hc H]]]]].
+    - destruct (argmax_row_pos row i0 0 best) as [H'|[t [Ht H']]].
+      + left. congruence.
+      + right. exists 0, t. cbn [nth]. split; [lia|]. split; [exact Ht|].
+        rewrite H, H'. f_equal. lia.
+    - right. exists (S r), c. cbn [nth]. split; [lia|]. split; [exact Hc|].
+      rewrite H. f_equal. lia.
   Qed.
 
-  (* the position returned is the first one, row-major, whose entry exceeds ATOL *)
-  Lemma first_nonzero_Some (A : mat) : forall i0 i j,
-    first_nonzero N A i0 = Some (i, j) ->
-    i0 <= i /\ i - i0 < length A /\ j < length (nth (i - i0) A []) /\
-    bigb (mget A (i - i0) j) = true /\
-    (forall c, c < j -> bigb (mget A (i - i0) c) = false) /\
-    (forall r c, r < i - i0 -> c < length (nth r A []) -> bigb (mget A r c) = false).
+  (* np.argmax raises ValueError exactly when there is no entry (0,0) *)
+  Lemma argmax_entry_None (A : mat) :
+    argmax_entry N A = None <-> length A = 0 \/ length (nth 0 A []) = 0.
   Proof.
-    induction A as [|row A IH]; intros i0 i j H; cbn [first_nonzero] in H; [discriminate|].
-    destruct (first_nonzero_row N row 0) as [j'|] eqn:E.
-    - injection H as <- <-. rewrite Nat.sub_diag. cbn [length nth].
-      destruct (first_nonzero_row_Some _ _ _ E) as [_ [H2 [H3 H4]]].
-      rewrite Nat.sub_0_r in H2, H3, H4. unfold MatrixP.mget. cbn [nth].
-      repeat split; [lia|lia|exact H2|exact H3|exact H4|intros r c Hr; lia].
-    - destruct (IH _ _ _ H) as [H1 [H2 [H3 [H4 [H5 H6]]]]].
-      replace (i - i0) with (S (i - S i0)) by lia. unfold MatrixP.mget in *. cbn [length nth].
-      repeat split; [lia|lia|exact H3|exact H4|exact H5|].
-      intros [|r] c Hr Hc; cbn [nth] in *.
-      + exact (proj1 (first_nonzero_row_None row 0) E c Hc).
-      + apply H6; [lia|exact Hc].
+    unfold argmax_entry. destruct A as [|[|x row] A]; cbn [length nth].
+    - split; auto.
+    - split; auto.
+    - split; [discriminate|]. intros [H|H]; discriminate.
   Qed.
 
-  Lemma first_nonzero_None (A : mat) : forall i0,
-    first_nonzero N A i0 = None <->
-    forall r c, r < length A -> c < length (nth r A []) -> bigb (mget A r c) = false.
+  Lemma argmax_entry_exists (A : mat) :
+    0 < length A -> 0 < length (nth 0 A []) -> exists ij, argmax_entry N A = Some ij.
   Proof.
-    induction A as [|row A IH]; intros i0; cbn [first_nonzero length].
-    - split; [intros _ r c Hr; lia|reflexivity].
-    - unfold MatrixP.mget in *. destruct (first_nonzero_row N row 0) as [j'|] eqn:E.
-      + split; [discriminate|]. intros H. exfalso.
-        destruct (first_nonzero_row_Some _ _ _ E) as [_ [H2 [H3 _]]]. rewrite Nat.sub_0_r in H2, H3.
-        specialize (H 0 j' ltac:(lia) H2). cbn [nth] in H. congruence.
-      + rewrite IH. split.
-        * intros H [|r] c Hr Hc; cbn [nth] in *.
-          -- exact (proj1 (first_nonzero_row_None row 0) E c Hc).
-          -- apply H; [lia|exact Hc].
-        * intros H r c Hr Hc. apply (H (S r) c); [lia|exact Hc].
+    intros H1 H2. destruct (argmax_entry N A) as [ij|] eqn:E; [now exists ij|].
+    apply argmax_entry_None in E. lia.
   Qed.
 
-  Corollary first_nonzero_exists (A : mat) r c :
-    r < length A -> c < length (nth r A []) -> bigb (mget A r c) = true ->
-    exists i j, first_nonzero N A 0 = Some (i, j).
+  (* the position returned is a position of A *)
+  Lemma argmax_entry_in_range (A : mat) i j :
+    argmax_entry N A = Some (i, j) -> i < length A /\ j < length (nth i A []).
   Proof.
-    intros Hr Hc Hb. destruct (first_nonzero N A 0) as [[i j]|] eqn:E; [now exists i, j|].
-    rewrite first_nonzero_None in E. rewrite (E r c Hr Hc) in Hb. discriminate.
+    unfold argmax_entry. destruct A as [|[|x row] A]; try discriminate.
+    intros H0.
+    assert (H : fst (argmax_rows N ((x :: row) :: A) 0 ((0, 0), cabs N x)) = (i, j)) by congruence.
+    clear H0.
+    destruct (argmax_rows_pos ((x :: row) :: A) 0 ((0, 0), cabs N x)) as [H'|[r [c [Hr [Hc H']]]]];
+      rewrite H in H'; cbn [fst] in H'.
+    - injection H' as -> ->. cbn [length nth]. lia.
+    - injection H' as -> ->. auto.
+  Qed.
+
+  (* on a d x d matrix, d >= 1, np.argmax answers, inside the matrix *)
+  Lemma argmax_entry_wf d (A : mat) : 0 < d -> wf_mat d A ->
+    exists i j, argmax_entry N A = Some (i, j) /\ i < d /\ j < d.
+  Proof.
+    intros Hd HA. assert (HlA : length A = d) by (destruct HA; assumption).
+    destruct (argmax_entry_exists A) as [[i j] E].
+    - lia.
+    - rewrite (shape_row _ _ _ 0 HA Hd). exact Hd.
+    - exists i, j. split; [exact E|]. destruct (argmax_entry_in_range _ _ _ E) as [Hi Hj].
+      assert (Hi' : i < d) by lia. split; [exact Hi'|].
+      now rewrite (shape_row _ _ _ _ HA Hi') in Hj.
   Qed.
 
   (* ---- equiv_up_to_phase, boolean characterisations ------------------ *)
 
   Lemma equiv_up_to_phase_true_iff (A B : mat) :
     equiv_up_to_phase N A B = Ok true <->
-    exists ij, first_nonzero N A 0 = Some ij /\
-      nltb N (cabs N (mat_get N B ij)) (atol N) = false /\
+    exists ij, argmax_entry N A = Some ij /\
+      smallb (mat_get N A ij) = false /\ smallb (mat_get N B ij) = false /\
       mat_allclose N A (mat_scale N (cdiv N (mat_get N A ij) (mat_get N B ij)) B) = true.
   Proof.
-    unfold equiv_up_to_phase. destruct (first_nonzero N A 0) as [ij|].
-    - destruct (nltb N (cabs N (mat_get N B ij)) (atol N)) eqn:E.
-      + split; [discriminate|]. intros [ij' [H [H' _]]]. injection H as <-. congruence.
-      + split.
-        * intros H. injection H as H. exists ij. repeat split; assumption.
-        * intros [ij' [H [_ H']]]. injection H as <-. now rewrite H'.
+    unfold equiv_up_to_phase, smallb. destruct (argmax_entry N A) as [ij|].
+    - destruct (nltb N (cabs N (mat_get N A ij)) (atol N)) eqn:EA;
+        destruct (nltb N (cabs N (mat_get N B ij)) (atol N)) eqn:EB; cbn [orb].
+      1-3: (split; [discriminate|]; intros [ij' [H [HA' [HB' _]]]]; injection H as <-; congruence).
+      split.
+      + intros H. injection H as H. exists ij. repeat split; assumption.
+      + intros [ij' [H [_ [_ H']]]]. injection H as <-. now rewrite H'.
     - split; [discriminate|]. intros [ij [H _]]. discriminate.
   Qed.
 
   Lemma equiv_up_to_phase_false_iff (A B : mat) :
     equiv_up_to_phase N A B = Ok false <->
-    exists ij, first_nonzero N A 0 = Some ij /\
-      (nltb N (cabs N (mat_get N B ij)) (atol N) = true \/
-       (nltb N (cabs N (mat_get N B ij)) (atol N) = false /\
+    exists ij, argmax_entry N A = Some ij /\
+      (smallb (mat_get N A ij) = true \/ smallb (mat_get N B ij) = true \/
+       (smallb (mat_get N A ij) = false /\ smallb (mat_get N B ij) = false /\
         mat_allclose N A (mat_scale N (cdiv N (mat_get N A ij) (mat_get N B ij)) B) = false)).
   Proof.
-    unfold equiv_up_to_phase. destruct (first_nonzero N A 0) as [ij|].
-    - destruct (nltb N (cabs N (mat_get N B ij)) (atol N)) eqn:E.
-      + split; [intros _; exists ij; auto|reflexivity].
-      + split.
-        * intros H. injection H as H. exists ij. split; [reflexivity|right; auto].
-        * intros [ij' [H H']]. injection H as <-. destruct H' as [H'|[_ H']]; [congruence|].
-          now rewrite H'.
+    unfold equiv_up_to_phase, smallb. destruct (argmax_entry N A) as [ij|].
+    - destruct (nltb N (cabs N (mat_get N A ij)) (atol N)) eqn:EA;
+        destruct (nltb N (cabs N (mat_get N B ij)) (atol N)) eqn:EB; cbn [orb].
+      1-3: (split; [intros _; exists ij; split; [reflexivity|rewrite ?EA, ?EB; auto]|reflexivity]).
+      split.
+      + intros H. injection H as H. exists ij. split; [reflexivity|]. rewrite EA, EB. right. right. auto.
+      + intros [ij' [H H']]. injection H as <-. rewrite EA, EB in H'.
+        destruct H' as [H'|[H'|[_ [_ H']]]]; [discriminate|discriminate|]. now rewrite H'.
     - split; [discriminate|]. intros [ij [H _]]. discriminate.
   Qed.
 
-  (* StopIteration: no entry of A exceeds ATOL *)
+  (* the only error is numpy's ValueError for the argmax of an empty matrix; in
+     particular an all-zero A no longer raises (StopIteration used to escape) *)
   Lemma equiv_up_to_phase_err_iff (A B : mat) e :
-    equiv_up_to_phase N A B = Err e <->
-    e = EOther /\
-    forall r c, r < length A -> c < length (nth r A []) -> bigb (mget A r c) = false.
+    equiv_up_to_phase N A B = Err e <-> e = EValue /\ argmax_entry N A = None.
   Proof.
-    rewrite <- (first_nonzero_None A 0). unfold equiv_up_to_phase.
-    destruct (first_nonzero N A 0) as [ij|].
-    - destruct (nltb N (cabs N (mat_get N B ij)) (atol N)); split; try discriminate; intros [_ H]; discriminate.
+    unfold equiv_up_to_phase. destruct (argmax_entry N A) as [ij|].
+    - destruct (orb _ _); split; try discriminate; intros [_ H]; discriminate.
     - split; [intros H; injection H as <-; auto|intros [-> _]; reflexivity].
+  Qed.
+
+  (* on d x d matrices, d >= 1, the comparison always answers *)
+  Lemma equiv_up_to_phase_total_wf d (A B : mat) : 0 < d -> wf_mat d A ->
+    exists b, equiv_up_to_phase N A B = Ok b.
+  Proof.
+    intros Hd HA. destruct (equiv_up_to_phase N A B) as [b|e] eqn:E; [now exists b|].
+    apply equiv_up_to_phase_err_iff in E. destruct E as [_ E].
+    destruct (argmax_entry_wf d A Hd HA) as [i [j [H _]]]. congruence.
   Qed.
 End CheckT.
 
@@ -348,10 +361,135 @@ Section CheckR.
     unfold cdiv, nsq. rnum_cbn. apply pair_eq; field; exact Hb.
   Qed.
 
-  Lemma bigb_iff z : bigb RNum z = true <-> ATOL < Cabs z.
-  Proof. unfold bigb. cbn [nltb RNum]. apply Rltb_true. Qed.
-  Lemma bigb_false_iff z : bigb RNum z = false <-> Cabs z <= ATOL.
-  Proof. unfold bigb. cbn [nltb RNum]. apply Rltb_false. Qed.
+  Lemma smallb_iff z : smallb RNum z = true <-> Cabs z < ATOL.
+  Proof. unfold smallb. cbn [nltb RNum]. apply Rltb_true. Qed.
+  Lemma smallb_false_iff z : smallb RNum z = false <-> ATOL <= Cabs z.
+  Proof. unfold smallb. cbn [nltb RNum]. apply Rltb_false. Qed.
+
+  Lemma Cabs_sq z : Cabs z * Cabs z = fst z * fst z + snd z * snd z.
+  Proof. unfold Cabs. apply sqrt_sqrt. nra. Qed.
+
+  (* ---- A.0  np.argmax(np.abs(A)) -------------------------------------- *)
+
+  (* one row of the scan: the magnitude carried only grows, it bounds the row, and
+     either nothing changed or the new best is the first entry of the row that
+     reaches the new magnitude, strictly above the old one *)
+  Lemma argmax_row_R (r : list CR) i : forall j0 bp bm p' m',
+    argmax_row RNum r i j0 (bp, bm) = (p', m') ->
+    bm <= m' /\
+    (forall k, (k < length r)%nat -> Cabs (nth k r (czero RNum)) <= m') /\
+    ((p', m') = (bp, bm) \/
+     exists t, (t < length r)%nat /\ p' = (i, (j0 + t)%nat) /\
+               m' = Cabs (nth t r (czero RNum)) /\ bm < m' /\
+               forall t', (t' < t)%nat -> Cabs (nth t' r (czero RNum)) < m').
+  Proof.
+    induction r as [|x r IH]; intros j0 bp bm p' m' H; cbn [argmax_row length] in H.
+    - injection H as <- <-. split; [lra|]. split; [intros k Hk; cbn in Hk; lia|now left].
+    - cbv zeta in H. cbn [snd] in H. change (cabs RNum x) with (Cabs x) in H.
+      cbn [nltb RNum] in H.
+      destruct (Rltb bm (Cabs x)) eqn:E.
+      + apply Rltb_true in E. destruct (IH _ _ _ _ _ H) as [H1 [H2 H3]].
+        split; [lra|]. split.
+        * intros [|k] Hk; cbn [nth]; [lra|apply H2; cbn [length] in Hk; lia].
+        * right. destruct H3 as [H3|[t [Ht [Hp [Hm [Hlt Hbefore]]]]]].
+          -- injection H3 as -> ->. exists 0%nat. cbn [nth length].
+             split; [lia|]. split; [now rewrite Nat.add_0_r|]. split; [reflexivity|].
+             split; [exact E|]. intros t' Ht'; lia.
+          -- exists (S t). cbn [nth length].
+             split; [lia|]. split; [rewrite Hp; f_equal; lia|]. split; [exact Hm|].
+             split; [lra|]. intros [|t'] Ht'; [lra|apply Hbefore; lia].
+      + apply Rltb_false in E. destruct (IH _ _ _ _ _ H) as [H1 [H2 H3]].
+        split; [exact H1|]. split.
+        * intros [|k] Hk; cbn [nth]; [lra|apply H2; cbn [length] in Hk; lia].
+        * destruct H3 as [H3|[t [Ht [Hp [Hm [Hlt Hbefore]]]]]].
+          -- now left.
+          -- right. exists (S t). cbn [nth length].
+             split; [lia|]. split; [rewrite Hp; f_equal; lia|]. split; [exact Hm|].
+             split; [exact Hlt|]. intros [|t'] Ht'; [lra|apply Hbefore; lia].
+  Qed.
+
+  Lemma argmax_rows_R (A : matR) : forall i0 bp bm p' m',
+    argmax_rows RNum A i0 (bp, bm) = (p', m') ->
+    bm <= m' /\
+    (forall r c, (r < length A)%nat -> (c < length (nth r A []))%nat -> Cabs (mgetR A r c) <= m') /\
+    ((p', m') = (bp, bm) \/
+     exists r c, (r < length A)%nat /\ (c < length (nth r A []))%nat /\
+       p' = ((i0 + r)%nat, c) /\ m' = Cabs (mgetR A r c) /\ bm < m' /\
+       forall r' c', (r' < r)%nat \/ (r' = r /\ (c' < c)%nat) ->
+                     (c' < length (nth r' A []))%nat -> Cabs (mgetR A r' c') < m').
+  Proof.
+    induction A as [|row A IH]; intros i0 bp bm p' m' H; cbn [argmax_rows length] in H.
+    - injection H as <- <-. split; [lra|]. split; [intros r c Hr; cbn in Hr; lia|now left].
+    - destruct (argmax_row RNum row i0 0 (bp, bm)) as [p1 m1] eqn:E1.
+      destruct (argmax_row_R _ _ _ _ _ _ _ E1) as [R1 [R2 R3]].
+      destruct (IH _ _ _ _ _ H) as [H1 [H2 H3]].
+      split; [lra|]. split.
+      + intros [|r] c Hr Hc; unfold MatrixP.mget in *; cbn [nth length] in *.
+        * specialize (R2 c Hc). lra.
+        * apply H2; [lia|exact Hc].
+      + destruct H3 as [H3|[r [c [Hr [Hc [Hp [Hm [Hlt Hbefore]]]]]]]].
+        * injection H3 as -> ->. destruct R3 as [R3|[t [Ht [Hp [Hm [Hlt Hbefore]]]]]].
+          -- now left.
+          -- right. exists 0%nat, t. unfold MatrixP.mget. cbn [nth length].
+             split; [lia|]. split; [exact Ht|]. split; [rewrite Hp; f_equal; lia|].
+             split; [exact Hm|]. split; [exact Hlt|].
+             intros r' c' [Hr'|[-> Hc']] Hlen; [lia|]. cbn [nth]. now apply Hbefore.
+        * right. exists (S r), c. unfold MatrixP.mget in *. cbn [nth length].
+          split; [lia|]. split; [exact Hc|]. split; [rewrite Hp; f_equal; lia|].
+          split; [exact Hm|]. split; [lra|].
+          intros [|r'] c' Hor Hlen; cbn [nth] in *.
+          -- specialize (R2 c' Hlen). lra.
+          -- apply Hbefore; [|exact Hlen].
+             destruct Hor as [Hor|[Hor Hc']]; [left; lia|right; split; [lia|exact Hc']].
+  Qed.
+
+  (* np.unravel_index(np.argmax(np.abs(A)), A.shape): the position returned is a
+     position of A, its modulus is the largest of all entries, and it is the FIRST
+     such position in row-major order *)
+  Theorem argmax_entry_spec (A : matR) i j :
+    argmax_entry RNum A = Some (i, j) ->
+    (i < length A)%nat /\ (j < length (nth i A []))%nat /\
+    (forall r c, (r < length A)%nat -> (c < length (nth r A []))%nat ->
+                 Cabs (mgetR A r c) <= Cabs (mgetR A i j)) /\
+    (forall r c, (r < i)%nat \/ (r = i /\ (c < j)%nat) -> (c < length (nth r A []))%nat ->
+                 Cabs (mgetR A r c) < Cabs (mgetR A i j)).
+  Proof.
+    intros H. destruct (argmax_entry_in_range RNum A i j H) as [Hi Hj].
+    split; [exact Hi|]. split; [exact Hj|].
+    unfold argmax_entry in H. destruct A as [|[|x row] A']; try discriminate.
+    set (A := (x :: row) :: A') in *.
+    destruct (argmax_rows RNum A 0 ((0, 0)%nat, cabs RNum x)) as [p' m'] eqn:E.
+    cbn [fst] in H. injection H as ->.
+    destruct (argmax_rows_R _ _ _ _ _ _ E) as [H1 [H2 H3]].
+    destruct H3 as [H3|[r [c [Hr [Hc [Hp [Hm [Hlt Hbefore]]]]]]]].
+    - injection H3 as -> -> Hm.
+      replace (Cabs (mgetR A 0 0)) with m' by (rewrite Hm; reflexivity).
+      split; [exact H2|]. intros r c [Hr|[-> Hc]] _; lia.
+    - cbn [Nat.add] in Hp. injection Hp as -> ->. rewrite <- Hm.
+      split; [exact H2|exact Hbefore].
+  Qed.
+
+  (* ... and these three properties determine it *)
+  Theorem argmax_entry_complete (A : matR) i j :
+    (0 < length (nth 0 A []))%nat -> (i < length A)%nat -> (j < length (nth i A []))%nat ->
+    (forall r c, (r < length A)%nat -> (c < length (nth r A []))%nat ->
+                 Cabs (mgetR A r c) <= Cabs (mgetR A i j)) ->
+    (forall r c, (r < i)%nat \/ (r = i /\ (c < j)%nat) -> (c < length (nth r A []))%nat ->
+                 Cabs (mgetR A r c) < Cabs (mgetR A i j)) ->
+    argmax_entry RNum A = Some (i, j).
+  Proof.
+    intros H0 Hi Hj Hmax Hfirst.
+    destruct (argmax_entry_exists RNum A ltac:(lia) H0) as [[i' j'] E].
+    destruct (argmax_entry_spec A i' j' E) as [Hi' [Hj' [Hmax' Hfirst']]].
+    rewrite E. f_equal.
+    destruct (lt_eq_lt_dec i' i) as [[Hlt|Heq]|Hgt].
+    - specialize (Hfirst i' j' (or_introl Hlt) Hj'). specialize (Hmax' i j Hi Hj). lra.
+    - subst i'. destruct (lt_eq_lt_dec j' j) as [[Hlt|Heq]|Hgt].
+      + specialize (Hfirst i j' (or_intror (conj eq_refl Hlt)) Hj'). specialize (Hmax' i j Hi Hj). lra.
+      + now subst j'.
+      + specialize (Hfirst' i j (or_intror (conj eq_refl Hgt)) Hj). specialize (Hmax i j' Hi' Hj'). lra.
+    - specialize (Hfirst' i j (or_introl Hgt) Hj). specialize (Hmax i' j' Hi' Hj'). lra.
+  Qed.
 
   (* np.isclose on one entry: |a - b| <= 1e-8 + 1e-5 |b| *)
   Lemma close_c_iff a b :
@@ -415,19 +553,22 @@ Section CheckR.
     intros r c _ _. apply close_c_refl.
   Qed.
 
-  (* ---- A.2  are_matrices_equivalent_up_to_global_phase ---------------- *)
+  (* ---- A.2  are_matrices_equivalent_up_to_global_phase (as repaired) ---- *)
 
   (* acceptance: A and B have the same dimensions and A equals p * B entrywise
      within 1e-8 + 1e-5 |p B_rc|, for the ONE factor p = A_ij / B_ij read off
-     at the first entry of A (row-major) whose modulus exceeds ATOL *)
+     at the first entry of A (row-major) of LARGEST modulus; neither A_ij nor
+     B_ij is below ATOL *)
   Theorem equiv_up_to_phase_sound (A B : matR) :
     equiv_up_to_phase RNum A B = Ok true ->
     exists i j p,
-      first_nonzero RNum A 0 = Some (i, j) /\
+      argmax_entry RNum A = Some (i, j) /\
       (i < length A)%nat /\ (j < length (nth i A []))%nat /\
-      ATOL < Cabs (mgetR A i j) /\
+      (forall r c, (r < length A)%nat -> (c < length (nth r A []))%nat ->
+                   Cabs (mgetR A r c) <= Cabs (mgetR A i j)) /\
       (forall r c, (r < i)%nat \/ (r = i /\ c < j)%nat ->
-                   (c < length (nth r A []))%nat -> Cabs (mgetR A r c) <= ATOL) /\
+                   (c < length (nth r A []))%nat -> Cabs (mgetR A r c) < Cabs (mgetR A i j)) /\
+      ATOL <= Cabs (mgetR A i j) /\
       ATOL <= Cabs (mgetR B i j) /\
       p = cdiv RNum (mgetR A i j) (mgetR B i j) /\
       length A = length B /\
@@ -436,81 +577,85 @@ Section CheckR.
         Cabs (csub RNum (mgetR A r c) (cmul RNum p (mgetR B r c)))
         <= 1 / 100000000 + 1 / 100000 * Cabs (cmul RNum p (mgetR B r c)).
   Proof.
-    intros H. apply equiv_up_to_phase_true_iff in H. destruct H as [[i j] [Hfn [Hb Hc]]].
-    destruct (first_nonzero_Some _ _ _ _ _ Hfn) as [_ [H2 [H3 [H4 [H5 H6]]]]].
-    rewrite Nat.sub_0_r in H2, H3, H4, H5, H6.
-    change (mat_get RNum A (i, j)) with (mgetR A i j) in Hc.
+    intros H. apply equiv_up_to_phase_true_iff in H. destruct H as [[i j] [Hfn [Ha [Hb Hc]]]].
+    destruct (argmax_entry_spec _ _ _ Hfn) as [H2 [H3 [H4 H5]]].
+    change (mat_get RNum A (i, j)) with (mgetR A i j) in Ha, Hc.
     change (mat_get RNum B (i, j)) with (mgetR B i j) in Hb, Hc.
     set (p := cdiv RNum (mgetR A i j) (mgetR B i j)) in *.
     apply mat_allclose_sound in Hc. destruct Hc as [Hl [Hrows Hent]].
     rewrite mat_scale_length in Hl.
-    exists i, j, p. repeat split.
-    - exact Hfn.
-    - exact H2.
-    - exact H3.
-    - now apply bigb_iff.
-    - intros r c [Hr|[-> Hcj]] Hc; apply bigb_false_iff; [now apply H6|now apply H5].
-    - cbn [nltb RNum] in Hb. now apply Rltb_false in Hb.
-    - exact Hl.
+    exists i, j, p.
+    split; [exact Hfn|]. split; [exact H2|]. split; [exact H3|]. split; [exact H4|].
+    split; [exact H5|]. split; [now apply smallb_false_iff|]. split; [now apply smallb_false_iff|].
+    split; [reflexivity|]. split; [exact Hl|]. split.
     - intros r Hr. rewrite (Hrows r Hr). apply mat_scale_row_length.
     - intros r c Hr Hc. specialize (Hent r c Hr Hc).
       rewrite mget_mat_scale in Hent; [exact Hent|lia|].
       rewrite <- (mat_scale_row_length RNum p B r), <- (Hrows r Hr). exact Hc.
   Qed.
 
-  (* rejection: B is (nearly) zero where A is not, or allclose fails for that factor *)
+  (* rejection: the largest entry of A is below ATOL (A is numerically zero), or B
+     is (nearly) zero there, or allclose fails for that factor *)
   Theorem equiv_up_to_phase_false (A B : matR) :
     equiv_up_to_phase RNum A B = Ok false <->
-    exists i j, first_nonzero RNum A 0 = Some (i, j) /\
-      (Cabs (mgetR B i j) < ATOL \/
-       (ATOL <= Cabs (mgetR B i j) /\
+    exists i j, argmax_entry RNum A = Some (i, j) /\
+      (Cabs (mgetR A i j) < ATOL \/ Cabs (mgetR B i j) < ATOL \/
+       (ATOL <= Cabs (mgetR A i j) /\ ATOL <= Cabs (mgetR B i j) /\
         mat_allclose RNum A (mat_scale RNum (cdiv RNum (mgetR A i j) (mgetR B i j)) B) = false)).
   Proof.
-    rewrite equiv_up_to_phase_false_iff. cbn [nltb RNum]. split.
+    rewrite equiv_up_to_phase_false_iff. split.
     - intros [[i j] [Hfn H]]. exists i, j. split; [exact Hfn|].
       change (mat_get RNum A (i, j)) with (mgetR A i j) in H.
       change (mat_get RNum B (i, j)) with (mgetR B i j) in H.
-      rewrite Rltb_true, Rltb_false in H. exact H.
+      rewrite !smallb_iff, !smallb_false_iff in H. exact H.
     - intros [i [j [Hfn H]]]. exists (i, j). split; [exact Hfn|].
       change (mat_get RNum A (i, j)) with (mgetR A i j).
       change (mat_get RNum B (i, j)) with (mgetR B i j).
-      rewrite Rltb_true, Rltb_false. exact H.
+      rewrite !smallb_iff, !smallb_false_iff. exact H.
   Qed.
 
-  (* the only error is Python's StopIteration: no entry of A exceeds ATOL *)
+  (* the only error is numpy's ValueError for np.argmax of an empty matrix *)
   Theorem equiv_up_to_phase_err (A B : matR) e :
     equiv_up_to_phase RNum A B = Err e <->
-    e = EOther /\
-    forall r c, (r < length A)%nat -> (c < length (nth r A []))%nat -> Cabs (mgetR A r c) <= ATOL.
+    e = EValue /\ (length A = 0 \/ length (nth 0 A []) = 0)%nat.
+  Proof. rewrite equiv_up_to_phase_err_iff, argmax_entry_None. reflexivity. Qed.
+
+  (* an all-zero (numerically zero) A is now REJECTED; before the repair Python's
+     StopIteration escaped here (Err EOther) *)
+  Theorem equiv_up_to_phase_all_small (A B : matR) :
+    (0 < length A)%nat -> (0 < length (nth 0 A []))%nat ->
+    (forall r c, (r < length A)%nat -> (c < length (nth r A []))%nat -> Cabs (mgetR A r c) < ATOL) ->
+    equiv_up_to_phase RNum A B = Ok false.
   Proof.
-    rewrite equiv_up_to_phase_err_iff. split; intros [He H]; (split; [exact He|]);
-      intros r c Hr Hc; apply bigb_false_iff; now apply H.
+    intros H1 H2 Hs. destruct (argmax_entry_exists RNum A H1 H2) as [[i j] E].
+    destruct (argmax_entry_in_range RNum A i j E) as [Hi Hj].
+    apply equiv_up_to_phase_false. exists i, j. split; [exact E|]. left. now apply Hs.
   Qed.
 
   (* ---- A.3  completeness for an exact global phase -------------------- *)
 
   Theorem equiv_up_to_phase_complete_exact (A B : matR) z r c :
     Cabs z = 1 -> A = mat_scale RNum z B ->
-    (r < length A)%nat -> (c < length (nth r A []))%nat -> ATOL < Cabs (mgetR A r c) ->
+    (0 < length (nth 0 A []))%nat ->
+    (r < length A)%nat -> (c < length (nth r A []))%nat -> ATOL <= Cabs (mgetR A r c) ->
     equiv_up_to_phase RNum A B = Ok true.
   Proof.
-    intros Hz HA Hr Hc Hbig.
-    destruct (first_nonzero_exists RNum A r c Hr Hc (proj2 (bigb_iff _) Hbig)) as [i [j Hfn]].
-    destruct (first_nonzero_Some _ _ _ _ _ Hfn) as [_ [H2 [H3 [H4 _]]]].
-    rewrite Nat.sub_0_r in H2, H3, H4. apply bigb_iff in H4.
+    intros Hz HA H0 Hr Hc Hbig.
+    destruct (argmax_entry_exists RNum A ltac:(lia) H0) as [[i j] Hfn].
+    destruct (argmax_entry_spec _ _ _ Hfn) as [H2 [H3 [H4 _]]].
+    specialize (H4 r c Hr Hc).
     apply equiv_up_to_phase_true_iff. exists (i, j). split; [exact Hfn|].
     change (mat_get RNum A (i, j)) with (mgetR A i j).
     change (mat_get RNum B (i, j)) with (mgetR B i j).
     assert (HAij : mgetR A i j = cmul RNum z (mgetR B i j)).
     { rewrite HA. rewrite HA in H2, H3. rewrite mat_scale_length in H2.
       rewrite mat_scale_row_length in H3. now apply mget_mat_scale. }
-    assert (HBabs : ATOL < Cabs (mgetR B i j)).
+    assert (HBabs : ATOL <= Cabs (mgetR B i j)).
     { rewrite HAij, Cabs_mul, Hz in H4. lra. }
-    split.
-    - cbn [nltb RNum]. apply Rltb_false. change (ATOL <= Cabs (mgetR B i j)). lra.
-    - rewrite HAij, cdiv_cmul_cancel.
-      + rewrite <- HA. apply mat_allclose_refl.
-      + apply Cabs_pos_sq. pose proof ATOL_pos. lra.
+    split; [apply smallb_false_iff; lra|]. split; [apply smallb_false_iff; exact HBabs|].
+    rewrite HAij, cdiv_cmul_cancel.
+    - rewrite <- HA. apply mat_allclose_refl.
+    - apply Cabs_pos_sq. pose proof ATOL_pos. lra.
   Qed.
 
   Lemma mat_scale_one (A : matR) : mat_scale RNum (1, 0) A = A.
@@ -521,15 +666,16 @@ Section CheckR.
   Qed.
 
   Corollary equiv_refl (A : matR) r c :
-    (r < length A)%nat -> (c < length (nth r A []))%nat -> ATOL < Cabs (mgetR A r c) ->
+    (0 < length (nth 0 A []))%nat ->
+    (r < length A)%nat -> (c < length (nth r A []))%nat -> ATOL <= Cabs (mgetR A r c) ->
     equiv_up_to_phase RNum A A = Ok true.
   Proof.
-    intros Hr Hc Hbig. apply (equiv_up_to_phase_complete_exact A A (1, 0) r c); try assumption.
+    intros H0 Hr Hc Hbig. apply (equiv_up_to_phase_complete_exact A A (1, 0) r c); try assumption.
     - unfold Cabs. cbn [fst snd]. replace (1 * 1 + 0 * 0) with 1 by ring. apply sqrt_1.
     - symmetry. apply mat_scale_one.
   Qed.
 
-  (* the factor is not required to have modulus 1: [[1]] and [[2]] are "equivalent" *)
+  (* the factor is not required to have modulus 1: [[1]] and [[2]] are still "equivalent" *)
   Lemma equiv_up_to_phase_accepts_non_phase :
     exists (A B : matR) (k : CR),
       B = mat_scale RNum k A /\ Cabs k = 2 /\ equiv_up_to_phase RNum A B = Ok true.
@@ -543,17 +689,98 @@ Section CheckR.
     split; [|split; [exact H2|]].
     - unfold mat_scale, cmul. cbn [map]. rnum_cbn. mat_eq.
     - apply equiv_up_to_phase_true_iff. exists (0%nat, 0%nat).
-      assert (Hb : bigb RNum (1, 0) = true) by (apply bigb_iff; rewrite H1; unfold ATOL; lra).
-      split; [|split].
-      + cbn [first_nonzero first_nonzero_row]. fold (bigb RNum (1, 0)). now rewrite Hb.
-      + change (mat_get RNum [[(2, 0)]] (0%nat, 0%nat)) with (2, 0). cbn [nltb RNum].
-        apply Rltb_false. rewrite cabs_RNum, H2. unfold atol. rnum_cbn. lra.
+      split; [|split; [|split]].
+      + unfold argmax_entry. cbn [argmax_rows argmax_row snd]. cbv zeta.
+        now destruct (nltb RNum _ _).
+      + change (mat_get RNum [[(1, 0)]] (0%nat, 0%nat)) with (1, 0).
+        apply smallb_false_iff. rewrite H1. unfold ATOL. lra.
+      + change (mat_get RNum [[(2, 0)]] (0%nat, 0%nat)) with (2, 0).
+        apply smallb_false_iff. rewrite H2. unfold ATOL. lra.
       + change (mat_get RNum [[(2, 0)]] (0%nat, 0%nat)) with (2, 0).
         change (mat_get RNum [[(1, 0)]] (0%nat, 0%nat)) with (1, 0).
         replace (mat_scale RNum (cdiv RNum (1, 0) (2, 0)) [[(2, 0)]]) with [[(1, 0)]].
         * apply mat_allclose_refl.
         * unfold mat_scale, cdiv, cmul, nsq. cbn [map]. rnum_cbn.
           repeat (apply f_equal2; [|reflexivity]). apply pair_eq; field.
+  Qed.
+
+  (* ---- A.4  the reference entry of a unitary matrix is well conditioned ---- *)
+
+  Lemma fst_cadd_conj_mul (s z : CR) :
+    fst (cadd RNum s (cmul RNum (cconj RNum z) z)) = fst s + (fst z * fst z + snd z * snd z).
+  Proof. destruct s as [s1 s2], z as [x y]. unfold cadd, cmul, cconj. rnum_cbn. ring. Qed.
+
+  Lemma gram_diag_le (U : matR) c M : forall n,
+    (forall k, (k < n)%nat -> Cabs (mgetR U k c) * Cabs (mgetR U k c) <= M) ->
+    fst (csum RNum n (fun k => cmul RNum (cconj RNum (mgetR U k c)) (mgetR U k c))) <= INR n * M.
+  Proof.
+    induction n as [|n IH]; intros H.
+    - cbn [csum INR]. change (fst (czero RNum)) with 0. lra.
+    - cbn [csum]. rewrite S_INR, fst_cadd_conj_mul.
+      assert (Hn : fst (csum RNum n (fun k => cmul RNum (cconj RNum (mgetR U k c)) (mgetR U k c)))
+                   <= INR n * M) by (apply IH; intros k Hk; apply H; lia).
+      specialize (H n ltac:(lia)). rewrite Cabs_sq in H. lra.
+  Qed.
+
+  (* every column of a unitary d x d matrix has squared norm 1, so its largest entry
+     has squared modulus >= 1/d; the entry np.argmax picks is at least that large.
+     Hence the phase is taken from an entry of modulus >= 1/sqrt d, never from one
+     that is only just above the tolerance. *)
+  Theorem equiv_up_to_phase_well_conditioned d (A : matR) i j :
+    unitary d A -> argmax_entry RNum A = Some (i, j) ->
+    (0 < d)%nat /\ (i < d)%nat /\ (j < d)%nat /\
+    1 <= INR d * (Cabs (mgetR A i j) * Cabs (mgetR A i j)) /\
+    1 / INR d <= (Cabs (mgetR A i j)) ^ 2 /\
+    1 / sqrt (INR d) <= Cabs (mgetR A i j).
+  Proof.
+    intros HU Hfn. pose proof HU as [HwA _].
+    assert (HlA : length A = d) by (destruct HwA; assumption).
+    destruct (argmax_entry_spec _ _ _ Hfn) as [Hi [Hj [Hmax _]]].
+    assert (Hd : (0 < d)%nat) by lia.
+    assert (Hi' : (i < d)%nat) by lia.
+    rewrite (shape_row _ _ _ _ HwA Hi') in Hj.
+    set (m := Cabs (mgetR A i j)) in *.
+    assert (Hm0 : 0 <= m) by apply Cabs_nonneg.
+    assert (Hsum : 1 <= INR d * (m * m)).
+    { pose proof (unitary_entry d A 0 0 Hd HU Hd Hd) as Hcol. cbn [Nat.eqb] in Hcol.
+      pose proof (gram_diag_le A 0%nat (m * m) d) as Hle. rewrite Hcol in Hle.
+      change (fst (cone RNum)) with 1 in Hle. apply Hle. intros k Hk.
+      assert (Hk0 : Cabs (mgetR A k 0) <= m).
+      { apply Hmax; [lia|]. now rewrite (shape_row _ _ _ _ HwA Hk). }
+      pose proof (Cabs_nonneg (mgetR A k 0)). nra. }
+    assert (HdR : 0 < INR d) by (apply lt_0_INR; exact Hd).
+    split; [exact Hd|]. split; [exact Hi'|]. split; [exact Hj|]. split; [exact Hsum|].
+    assert (Hsq : 1 / INR d <= m ^ 2).
+    { apply (Rmult_le_reg_l (INR d)); [exact HdR|]. replace (INR d * (1 / INR d)) with 1 by (field; lra).
+      replace (m ^ 2) with (m * m) by ring. exact Hsum. }
+    split; [exact Hsq|].
+    assert (Hs : 0 < sqrt (INR d)) by (apply sqrt_lt_R0; exact HdR).
+    assert (Hss : sqrt (INR d) * sqrt (INR d) = INR d) by (apply sqrt_sqrt; lra).
+    apply (Rmult_le_reg_l (sqrt (INR d))); [exact Hs|].
+    replace (sqrt (INR d) * (1 / sqrt (INR d))) with 1 by (field; lra).
+    (* 1 <= s * m from 1 <= (s m)^2 *)
+    assert (Hsm : 0 <= sqrt (INR d) * m) by (apply Rmult_le_pos; lra).
+    destruct (Rle_lt_dec 1 (sqrt (INR d) * m)) as [Hok|Hlt]; [exact Hok|exfalso].
+    assert (Hlt2 : (sqrt (INR d) * m) * (sqrt (INR d) * m) < 1) by nra.
+    replace ((sqrt (INR d) * m) * (sqrt (INR d) * m))
+      with ((sqrt (INR d) * sqrt (INR d)) * (m * m)) in Hlt2 by ring.
+    rewrite Hss in Hlt2. lra.
+  Qed.
+
+  (* in particular (d < 10^14, i.e. fewer than 46 qubits) the test |A_ij| < ATOL never
+     fires for a unitary A: rejection can only come from B or from allclose *)
+  Corollary equiv_up_to_phase_reference_above_atol d (A : matR) i j :
+    unitary d A -> argmax_entry RNum A = Some (i, j) -> INR d * (ATOL * ATOL) < 1 ->
+    ATOL < Cabs (mgetR A i j).
+  Proof.
+    intros HU Hfn Hd. destruct (equiv_up_to_phase_well_conditioned d A i j HU Hfn) as [Hd0 [_ [_ [H _]]]].
+    pose proof (Cabs_nonneg (mgetR A i j)) as Hm. pose proof ATOL_pos as Ha.
+    assert (HdR : 0 < INR d) by (apply lt_0_INR; exact Hd0).
+    destruct (Rlt_le_dec ATOL (Cabs (mgetR A i j))) as [Hok|Hle]; [exact Hok|exfalso].
+    assert (Cabs (mgetR A i j) * Cabs (mgetR A i j) <= ATOL * ATOL) by nra.
+    assert (INR d * (Cabs (mgetR A i j) * Cabs (mgetR A i j)) <= INR d * (ATOL * ATOL))
+      by (apply Rmult_le_compat_l; lra).
+    lra.
   Qed.
 End CheckR.
 
@@ -826,30 +1053,35 @@ Section CheckerT.
     - intros H q Hq. apply gates_qubits_In in Hq. destruct Hq as [g' [Hg Hq]]. now apply (H g').
   Qed.
 
-  (* errors: ValueError (wrong qubits, a constructor refusing the reindexed gate,
-     a matrix gate of the wrong size, matrices not equivalent) or the escaped
-     StopIteration when the gate's own matrix has no entry above ATOL *)
+  (* errors: only ValueError (wrong qubits, a constructor refusing the reindexed gate,
+     a matrix gate of the wrong size, matrices not equivalent).  Before the repair of
+     are_matrices_equivalent_up_to_global_phase a StopIteration escaped (Err EOther)
+     when the gate's own matrix had no entry above ATOL; now np.argmax always answers
+     on the 2^k x 2^k matrix and such a gate is rejected with ValueError *)
   Theorem check_replacement_error_kinds g repl e :
-    check_replacement N g repl = Err e ->
-    e = EValue \/
-    (e = EOther /\ zsubset (gates_qubits repl) (gate_qubits g) = true /\
-     exists A B, reindexed_matrix N (gate_qubits g) [g] = Ok A /\
-                 reindexed_matrix N (gate_qubits g) repl = Ok B /\
-                 first_nonzero N A 0 = None).
+    check_replacement N g repl = Err e -> e = EValue.
   Proof.
     unfold check_replacement. cbv zeta.
     destruct (zsubset (gates_qubits repl) (gate_qubits g)); cbn [negb].
-    2:{ intros H. injection H as <-. now left. }
+    2:{ intros H. now injection H as <-. }
     destruct (reindexed_matrix N (gate_qubits g) [g]) as [A|e1] eqn:EA.
-    2:{ intros H. injection H as <-. left. now apply reindexed_matrix_err in EA. }
+    2:{ intros H. injection H as <-. now apply reindexed_matrix_err in EA. }
     destruct (reindexed_matrix N (gate_qubits g) repl) as [B|e2] eqn:EB.
-    2:{ intros H. injection H as <-. left. now apply reindexed_matrix_err in EB. }
+    2:{ intros H. injection H as <-. now apply reindexed_matrix_err in EB. }
     destruct (equiv_up_to_phase N A B) as [[|]|e3] eqn:E.
     - discriminate.
-    - intros H. injection H as <-. now left.
-    - intros H. injection H as <-. right. apply equiv_up_to_phase_err_iff in E.
-      destruct E as [-> E]. split; [reflexivity|]. split; [reflexivity|].
-      exists A, B. repeat split. now apply first_nonzero_None.
+    - intros H. now injection H as <-.
+    - intros H. injection H as <-. apply equiv_up_to_phase_err_iff in E. now destruct E as [-> _].
+  Qed.
+
+  (* the comparison itself never fails inside the checker *)
+  Lemma check_replacement_equiv_total (g : gate) (A B : mat) :
+    reindexed_matrix N (gate_qubits g) [g] = Ok A ->
+    exists b, equiv_up_to_phase N A B = Ok b.
+  Proof.
+    intros HA. apply (equiv_up_to_phase_total_wf N (2 ^ length (gate_qubits g))).
+    - apply Nat.neq_0_lt_0, Nat.pow_nonzero. lia.
+    - exact (reindexed_matrix_wf _ _ _ HA).
   Qed.
 
   (* the result, when it is Ok, is Ok tt *)
@@ -897,6 +1129,7 @@ Section CheckerR.
     destruct (shape_eye RNum d) as [Hl _].
     pose proof (shape_row _ _ _ 0%nat (shape_eye RNum d) Hd) as Hr0.
     apply (equiv_up_to_phase_complete_exact A (eye RNum d) z 0 0 Hz HAz).
+    - rewrite HAz, mat_scale_row_length, Hr0. exact Hd.
     - rewrite HAz, mat_scale_length, Hl. exact Hd.
     - rewrite HAz, mat_scale_row_length, Hr0. exact Hd.
     - rewrite HAz, mget_mat_scale by (rewrite ?Hl, ?Hr0; exact Hd).
@@ -938,8 +1171,9 @@ Section CheckerR.
 
   (* acceptance means: the replacement only touches the gate's own k qubits, both
      2^k x 2^k matrices on those qubits exist, and they agree entrywise up to ONE
-     complex factor p (read off at the first entry of the gate's matrix above
-     ATOL) within 1e-8 + 1e-5 |p B_rc| *)
+     complex factor p (read off at the first entry of LARGEST modulus of the gate's
+     matrix; neither that entry nor the replacement's is below ATOL) within
+     1e-8 + 1e-5 |p B_rc| *)
   Theorem check_sound (g : gate R) (repl : list (gate R)) :
     check_replacement RNum g repl = Ok tt ->
     (forall g' q, In g' repl -> In q (gate_qubits g') -> In q (gate_qubits g)) /\
@@ -949,8 +1183,9 @@ Section CheckerR.
       reindexed_matrix RNum (gate_qubits g) repl = Ok B /\
       wf_mat d A /\ wf_mat d B /\
       (i < d)%nat /\ (j < d)%nat /\
-      first_nonzero RNum A 0 = Some (i, j) /\
-      ATOL < Cabs (mgetR A i j) /\ ATOL <= Cabs (mgetR B i j) /\
+      argmax_entry RNum A = Some (i, j) /\
+      (forall r c, (r < d)%nat -> (c < d)%nat -> Cabs (mgetR A r c) <= Cabs (mgetR A i j)) /\
+      ATOL <= Cabs (mgetR A i j) /\ ATOL <= Cabs (mgetR B i j) /\
       p = cdiv RNum (mgetR A i j) (mgetR B i j) /\
       forall r c, (r < d)%nat -> (c < d)%nat ->
         Cabs (csub RNum (mgetR A r c) (cmul RNum p (mgetR B r c)))
@@ -961,13 +1196,15 @@ Section CheckerR.
     pose proof (reindexed_matrix_wf _ _ _ _ HA) as HwA.
     pose proof (reindexed_matrix_wf _ _ _ _ HB) as HwB.
     apply equiv_up_to_phase_sound in He.
-    destruct He as [i [j [p [Hfn [Hi [Hj [HbA [_ [HbB [Hp [_ [_ Hent]]]]]]]]]]]].
+    destruct He as [i [j [p [Hfn [Hi [Hj [Hmax [_ [HbA [HbB [Hp [_ [_ Hent]]]]]]]]]]]]].
     set (d := (2 ^ length (gate_qubits g))%nat) in *.
     assert (HlA : length A = d) by (destruct HwA; assumption).
     assert (Hi' : (i < d)%nat) by lia.
     rewrite (shape_row _ _ _ _ HwA Hi') in Hj.
+    assert (Hmax' : forall r c, (r < d)%nat -> (c < d)%nat -> Cabs (mgetR A r c) <= Cabs (mgetR A i j)).
+    { intros r c Hr Hc. apply Hmax; [lia|]. now rewrite (shape_row _ _ _ _ HwA Hr). }
     exists A, B, p, i, j. cbv zeta. fold d.
-    do 10 (split; [assumption|]).
+    do 11 (split; [assumption|]).
     intros r c Hr Hc. apply Hent; [lia|]. now rewrite (shape_row _ _ _ _ HwA Hr).
   Qed.
 End CheckerR.
@@ -1285,20 +1522,18 @@ Section DispatchT.
       eexists. split; [exact H|]. exact (reindexed_matrix_wf N _ _ _ H).
   Qed.
 
-  (* on valid gates compare_gates either answers or lets StopIteration escape *)
+  (* on valid gates compare_gates always answers (as repaired: no StopIteration) *)
   Theorem compare_gates_total g1 g2 :
-    gate_valid g1 -> gate_valid g2 ->
-    (exists b, compare_gates N g1 g2 = Ok b) \/ compare_gates N g1 g2 = Err EOther.
+    gate_valid g1 -> gate_valid g2 -> exists b, compare_gates N g1 g2 = Ok b.
   Proof.
     intros Hv1 Hv2. destruct (union_order_covers g1 g2) as [Hin _].
-    destruct (reindexed_matrix_total (union_order g1 g2) g1) as [A [HA _]];
+    destruct (reindexed_matrix_total (union_order g1 g2) g1) as [A [HA HwA]];
       [intros q Hq; apply Hin; auto|exact Hv1|].
     destruct (reindexed_matrix_total (union_order g1 g2) g2) as [B [HB _]];
       [intros q Hq; apply Hin; auto|exact Hv2|].
     unfold compare_gates, compare_gates_ord. rewrite HA, HB.
-    destruct (equiv_up_to_phase N A B) as [b|e] eqn:E.
-    - left. now exists b.
-    - right. apply equiv_up_to_phase_err_iff in E. destruct E as [-> _]. reflexivity.
+    apply (equiv_up_to_phase_total_wf N (2 ^ length (union_order g1 g2))); [|exact HwA].
+    apply Nat.neq_0_lt_0, Nat.pow_nonzero. lia.
   Qed.
 
   (* one concrete expansion used below: a 4x4 matrix gate on operands [0;1] of a
@@ -1370,7 +1605,7 @@ Section SymR.
   Proof.
     cbv zeta.
     assert (He : equiv_up_to_phase RNum XI XI = Ok true).
-    { apply (equiv_refl XI 0 2); [cbn; lia|cbn; lia|].
+    { apply (equiv_refl XI 0 2); [cbn; lia|cbn; lia|cbn; lia|].
       change (mget RNum XI 0 2) with (1, 0). rewrite Cabs_one. unfold ATOL. lra. }
     split; cbn [gate_eq]; unfold compare_gates.
     - change (union_order (BSR 0 (1, 0, 0) PI (PI / 2)) (Mat IX [1; 0]%Z)) with [1; 0]%Z.
@@ -1381,8 +1616,117 @@ Section SymR.
 End SymR.
 
 (* ================================================================== *)
+(* Non-vacuity: the repaired comparison evaluated on concrete matrices  *)
+
+Section ExamplesR.
+  Local Open Scope R_scope.
+
+  Definition Xm : list (list (R * R)) := [[(0, 0); (1, 0)]; [(1, 0); (0, 0)]].
+  Definition iXm : list (list (R * R)) := [[(0, 0); (0, 1)]; [(0, 1); (0, 0)]].
+  Definition I2m : list (list (R * R)) := [[(1, 0); (0, 0)]; [(0, 0); (1, 0)]].
+  Definition Zero2 : list (list (R * R)) := [[(0, 0); (0, 0)]; [(0, 0); (0, 0)]].
+
+  Lemma Cabs_zero : Cabs (0, 0) = 0.
+  Proof. unfold Cabs. cbn [fst snd]. replace (0 * 0 + 0 * 0) with 0 by ring. apply sqrt_0. Qed.
+
+  Ltac entries2 r c Hr Hc :=
+    destruct r as [|[|r]]; [| |cbn in Hr; lia];
+    (destruct c as [|[|c]]; [| |cbn in Hc; lia]);
+    unfold MatrixP.mget; cbn [nth]; rewrite ?Cabs_zero, ?Cabs_one.
+
+  (* two entries of modulus 1: np.argmax returns the first one, (0,1) *)
+  Example argmax_entry_X : argmax_entry RNum Xm = Some (0%nat, 1%nat).
+  Proof.
+    apply argmax_entry_complete; unfold Xm; cbn [length nth]; try lia.
+    - intros r c Hr Hc. entries2 r c Hr Hc; lra.
+    - intros r c [Hr|[-> Hc]] Hlen; [lia|]. destruct c as [|c]; [|lia].
+      unfold MatrixP.mget; cbn [nth]; rewrite ?Cabs_zero, ?Cabs_one. lra.
+  Qed.
+
+  (* X = (-i) * (iX): accepted *)
+  Example equiv_X_iX : equiv_up_to_phase RNum Xm iXm = Ok true.
+  Proof.
+    apply (equiv_up_to_phase_complete_exact Xm iXm (0, -1) 0 1).
+    - unfold Cabs. cbn [fst snd]. replace (0 * 0 + -1 * -1) with 1 by ring. apply sqrt_1.
+    - unfold Xm, iXm, mat_scale, cmul. cbn [map]. rnum_cbn. mat_eq.
+    - cbn. lia.
+    - cbn. lia.
+    - cbn. lia.
+    - change (mget RNum Xm 0 1) with (1, 0). rewrite Cabs_one. unfold ATOL. lra.
+  Qed.
+
+  (* X against the identity: the identity vanishes at the reference entry (0,1) *)
+  Example equiv_X_I_rejected : equiv_up_to_phase RNum Xm I2m = Ok false.
+  Proof.
+    apply equiv_up_to_phase_false. exists 0%nat, 1%nat. split; [apply argmax_entry_X|].
+    right. left. change (mget RNum I2m 0 1) with (0, 0). rewrite Cabs_zero. apply ATOL_pos.
+  Qed.
+
+  (* an all-zero first argument: False (StopIteration used to escape here) *)
+  Example equiv_zero_rejected B : equiv_up_to_phase RNum Zero2 B = Ok false.
+  Proof.
+    apply equiv_up_to_phase_all_small; [cbn; lia|cbn; lia|].
+    intros r c Hr Hc. unfold Zero2 in *. entries2 r c Hr Hc; apply ATOL_pos.
+  Qed.
+
+  (* np.argmax of an empty matrix: ValueError *)
+  Example equiv_empty_error B : equiv_up_to_phase RNum [] B = Err EValue.
+  Proof. reflexivity. Qed.
+End ExamplesR.
+
+(* the same definitions run by the kernel on a decidable dictionary: fixed-point
+   numbers with 8 decimals on Z (entries are written multiplied by 10^8) *)
+Section ExamplesFix.
+  Local Open Scope Z_scope.
+  Definition FS : Z := 100000000.
+  Definition FixNum : Num Z := {|
+    nofZ := fun z => z * FS; nadd := Z.add; nsub := Z.sub; nmul := fun x y => x * y / FS;
+    ndiv := fun x y => x * FS / y; nneg := Z.opp; nabs := Z.abs;
+    nsqrt := fun x => Z.sqrt (x * FS); nsin := fun _ => 0; ncos := fun _ => 0;
+    ntan := fun _ => 0; nacos := fun _ => 0; natan2 := fun _ _ => 0; npi := 314159265;
+    nfloordiv := Z.div; nmod := Z.modulo; nltb := Z.ltb; nleb := Z.leb; neqb := Z.eqb;
+    ncopysign := fun x _ => x; nround := fun _ x => x; nroundpy := fun _ x => x;
+    nisfinite := fun _ => true; ndegrees := fun x => x |}.
+  Definition fx (m : list (list (Z * Z))) : list (list (Z * Z)) :=
+    map (map (fun z => (fst z * FS, snd z * FS))) m.
+
+  Definition FM1 := fx [[(1, 0); (3, 0)]; [(0, 3); (2, 0)]].
+  Definition FM1i := fx [[(0, -1); (0, -3)]; [(3, 0); (0, -2)]].      (* -i * FM1 *)
+  Definition FX := fx [[(0, 0); (1, 0)]; [(1, 0); (0, 0)]].
+  Definition FiX := fx [[(0, 0); (0, 1)]; [(0, 1); (0, 0)]].
+  Definition FI := fx [[(1, 0); (0, 0)]; [(0, 0); (1, 0)]].
+  (* 5e-8 (below ATOL = 1e-7) in the corner *)
+  Definition Ftiny : list (list (Z * Z)) := [[(5, 0); (0, 0)]; [(0, 0); (0, 0)]].
+
+  Example fix_atol : atol FixNum = 10.
+  Proof. vm_compute. reflexivity. Qed.
+  (* |3| at (0,1) and at (1,0): the first one *)
+  Example fix_argmax_first_of_ties : argmax_entry FixNum FM1 = Some (0%nat, 1%nat).
+  Proof. vm_compute. reflexivity. Qed.
+  Example fix_argmax_X : argmax_entry FixNum FX = Some (0%nat, 1%nat).
+  Proof. vm_compute. reflexivity. Qed.
+  Example fix_equiv_phase : equiv_up_to_phase FixNum FM1 FM1i = Ok true.
+  Proof. vm_compute. reflexivity. Qed.
+  Example fix_equiv_X_iX : equiv_up_to_phase FixNum FX FiX = Ok true.
+  Proof. vm_compute. reflexivity. Qed.
+  Example fix_equiv_X_I : equiv_up_to_phase FixNum FX FI = Ok false.
+  Proof. vm_compute. reflexivity. Qed.
+  Example fix_equiv_zero : equiv_up_to_phase FixNum (fx [[(0, 0); (0, 0)]; [(0, 0); (0, 0)]]) FM1 = Ok false.
+  Proof. vm_compute. reflexivity. Qed.
+  Example fix_equiv_tiny : equiv_up_to_phase FixNum Ftiny FM1 = Ok false.
+  Proof. vm_compute. reflexivity. Qed.
+  Example fix_equiv_empty : equiv_up_to_phase FixNum [] FM1 = Err EValue.
+  Proof. vm_compute. reflexivity. Qed.
+End ExamplesFix.
+
+(* ================================================================== *)
 Print Assumptions mat_allclose_iff.
-Print Assumptions first_nonzero_Some.
+Print Assumptions argmax_entry_in_range.
+Print Assumptions argmax_entry_spec.
+Print Assumptions argmax_entry_complete.
+Print Assumptions equiv_up_to_phase_well_conditioned.
+Print Assumptions equiv_up_to_phase_reference_above_atol.
+Print Assumptions equiv_up_to_phase_all_small.
 Print Assumptions equiv_up_to_phase_err_iff.
 Print Assumptions check_replacement_spec.
 Print Assumptions check_rejects_foreign_qubit.
